@@ -964,6 +964,14 @@ class ServerSSM(SSM):
             self.response(abort)
             return
 
+        # a segmented request starts with segment zero, anything else is a
+        # stray segment of a transfer that is already over
+        if apdu.apduSeq != 0:
+            if _debug: ServerSSM._debug("    - first segment required")
+            abort = self.abort(AbortReason.invalidApduInThisState)
+            self.response(abort)
+            return
+
         # save the request and set the segmentation context
         self.set_segmentation_context(apdu)
 
